@@ -21,7 +21,7 @@ ASSUMPTIONS = ['the reference model in vlib/model.py states the specification co
                'file names s<i>.fa give sample names s<i>',
                'a 15% slice is also run on the overflow-checked build; its panics are diagnostics, the release build decides']
 REQUIRED = {'quick': ['kind:len', 'kind:nend', 'kind:repeat', 'kind:pal', 'kind:rcrec', 'kind:empty', 'kind:random',
-                      'kind:multi', 'kind:manythreads', 'kind:inprocess', 'inprocess_builds_compared', 'palindromic_rows', 'refusals_correct', 'width64', 'width128', 'nk_without_full_info_compared', 'kind:huge', 'tables_over_4096_rows', 'crlf_inputs', 'samples_given_as_two_fasta_files']}
+                      'kind:multi', 'kind:manythreads', 'kind:inprocess', 'inprocess_builds_compared', 'palindromic_rows', 'refusals_correct', 'width64', 'width128', 'nk_without_full_info_compared', 'kind:huge', 'tables_over_4096_rows', 'crlf_inputs', 'samples_given_as_two_fasta_files', 'two_file_samples_whose_first_file_has_no_window', 'parallel_builds_with_two_file_samples']}
 REQUIRED['thorough'] = REQUIRED['quick']
 
 KINDS = ['len', 'nend', 'repeat', 'pal', 'rcrec', 'empty']
@@ -151,7 +151,7 @@ def gen_records(desc):
             t = list(base)
             for _j in range(rng.randint(0, 3)):
                 t[rng.randrange(len(t))] = rng.choice('ACGTN')
-            samples.append([''.join(t)])
+            samples.append([''.join(t)] + ([G.rseq(rng, k + rng.randint(0, 8))] if rng.random() < 0.4 else []))
         return samples
     if kind == 'multi':
         base = [G.rseq(rng, rng.randint(k, 5 * k)) for _ in range(rng.randint(1, 3))]
@@ -246,7 +246,7 @@ def run_case(desc, ctx):
     # input layouts: LF or (a tenth) CRLF line ends, wrapped or not; route: positional files, or (a tenth) a file list in which
     # a sample's records are spread over two FASTA files (name, file 1, file 2)
     crlf = rng.random() < 0.1
-    two_files = rng.random() < 0.1
+    two_files = rng.random() < (0.5 if desc['kind'] == 'manythreads' else 0.1)
     listed = []
     for i, recs in enumerate(samples):
         wrap_ = rng.choice([0, 0, 10, 60])
@@ -261,7 +261,12 @@ def run_case(desc, ctx):
             with open(ctx.path(name), 'w', newline='') as fh:
                 fh.write(txt)
             return ctx.path(name)
-        if two_files and len(recs) >= 2:
+        if two_files and rng.random() < 0.3:
+            # the first of the two files holds no window at all (a short or N-broken contig): the sample is what the second holds
+            empty_handed = [rng.choice([G.rseq(rng, max(1, k - 1)), G.rseq(rng, k // 2) + 'N' + G.rseq(rng, k // 2)])]
+            listed.append('s%d\t%s\t%s\n' % (i, put('s%d_a.fa' % i, empty_handed), put('s%d_b.fa' % i, recs)))
+            res.count('two_file_samples_whose_first_file_has_no_window')
+        elif two_files and len(recs) >= 2:
             cut = rng.randint(1, len(recs) - 1)
             listed.append('s%d\t%s\t%s\n' % (i, put('s%d_a.fa' % i, recs[:cut]), put('s%d_b.fa' % i, recs[cut:])))
         else:
@@ -270,6 +275,8 @@ def run_case(desc, ctx):
     if two_files and any(l.count('\t') == 2 for l in listed):
         files = ['-f', ctx.write('inputs.list', ''.join(listed))]
         res.count('samples_given_as_two_fasta_files')
+        if desc['kind'] == 'manythreads':
+            res.count('parallel_builds_with_two_file_samples')
     else:
         two_files = False
         files = [l.rstrip('\n').split('\t')[1] for l in listed]
